@@ -155,6 +155,8 @@ pub struct ClientOp {
     pub invoked_at: u64,
     pub rx: Option<ClientRx>,
     pub done: bool,
+    /// the node crashed while this request was outstanding (the client's connection broke)
+    pub lost: bool,
 }
 
 pub struct JoinOp {
@@ -533,6 +535,8 @@ impl Cluster {
                 true
             }
             "Drain" => self.do_drain(g("rounds").max(1) as usize).await,
+            "Final" => self.do_final().await,
+            "Recover" => self.do_recover(g("rounds").max(1) as usize).await,
             "Join" => self.do_join(g("n") as u32, g("to") as u32).await,
             "Zombie" => self.do_zombie(g("n") as u32, g("to") as u32).await,
             _ => false,
@@ -936,6 +940,7 @@ impl Cluster {
             invoked_at: self.step_no,
             rx: Some(rx),
             done: false,
+            lost: false,
         });
         let r = self.raft(n).unwrap().verif_client(vec![cmd]).await;
         if let Err(e) = r {
@@ -1008,6 +1013,147 @@ impl Cluster {
         true
     }
 
+    /// C30 epilogue: let every deadline pass, tick every leader, then list the requests that still
+    /// have no response (requests whose node crashed meanwhile are excluded: that client lost its
+    /// connection).
+    async fn do_final(&mut self) -> bool {
+        let ms = self.cfg.general_timeout_ms + 200;
+        tokio::time::advance(Duration::from_millis(ms)).await;
+        self.clock_ms += ms;
+        verif_clock::set(Some(self.clock_ms));
+        let ids: Vec<u32> = self.slots.keys().cloned().collect();
+        for n in ids.iter() {
+            if self.is_busy(*n) {
+                self.do_finish_round(*n).await;
+            }
+        }
+        for n in ids {
+            if self.is_up(n) && !self.is_busy(n) {
+                if let Some(v) = self.view(n) {
+                    if role_str(v.role) == "L" {
+                        let _ = self.raft(n).unwrap().verif_tick().await;
+                    }
+                }
+            }
+        }
+        self.settle().await;
+        let out: Vec<Value> = self
+            .clients
+            .iter()
+            .filter(|c| !c.done && !c.lost)
+            .map(|c| json!({"id": c.id, "node": c.node, "kind": c.kind, "policy": c.policy,
+                "nodeRole": self.view(c.node).map(|v| role_str(v.role)).unwrap_or("Down")}))
+            .collect();
+        self.events.push(json!({"e":"Outstanding","ops": out}));
+        true
+    }
+
+    /// C32 epilogue: faults stop (every node restarted, every message deliverable); a fair
+    /// deterministic scheduler runs `rounds` rounds; then the cluster must have a leader, accept a
+    /// write and have applied every committed entry on every live voter.
+    async fn do_recover(
+        &mut self,
+        rounds: usize,
+    ) -> bool {
+        let ids: Vec<u32> = self.slots.keys().cloned().collect();
+        for n in ids.iter() {
+            if !self.is_up(*n) {
+                self.do_restart(*n).await;
+            }
+            if let Some(h) = self.slots[n].h.as_ref() {
+                h.se.l.hold.store(false, Ordering::SeqCst);
+                h.sm.hold.store(false, Ordering::SeqCst);
+            }
+        }
+        self.do_drain(3).await;
+        let mut write_ok = false;
+        let mut turn = 0usize;
+        for _ in 0..rounds {
+            // current leaders with the highest term
+            let leaders: Vec<(u32, u64)> = ids
+                .iter()
+                .filter_map(|n| self.view(*n).filter(|v| role_str(v.role) == "L").map(|v| (*n, v.term)))
+                .collect();
+            let maxt = ids.iter().filter_map(|n| self.view(*n).map(|v| v.term)).max().unwrap_or(0);
+            let leader = leaders.iter().find(|(_, t)| *t == maxt).map(|(n, _)| *n);
+            match leader {
+                Some(l) => {
+                    let before = self.clients.len();
+                    let st = json!({"a":"Client","n":l,"op":"put","key":"k1","val":format!("recover{}", self.step_no)});
+                    self.do_client(&st).await;
+                    self.do_drain(6).await;
+                    if self.clients.len() > before {
+                        // response recorded by collect_async_events as ClientResp; look at done flag + last event
+                        let id = self.clients[before].id;
+                        write_ok = self.events.iter().any(|e| e["e"] == "ClientResp" && e["id"] == id && e["ok"] == true);
+                    }
+                    if write_ok {
+                        break;
+                    }
+                }
+                None => {
+                    // fair choice: the up voter with the most up-to-date log (ties: lowest id) times out and
+                    // runs an election; every message is delivered. (Any fixed symmetric rotation can livelock
+                    // a correct Raft; randomised timers are not modelled here.)
+                    let mut cands: Vec<(u64, u64, u32)> = vec![];
+                    for n in ids.iter() {
+                        if let Some(v) = self.view(*n) {
+                            if matches!(role_str(v.role), "F" | "C") {
+                                let h = self.slots[n].h.as_ref().unwrap();
+                                let lid = h.raft_log.last_log_id().unwrap_or_default();
+                                cands.push((lid.term, lid.index, *n));
+                            }
+                        }
+                    }
+                    if cands.is_empty() {
+                        break;
+                    }
+                    cands.sort_by(|a, b| b.0.cmp(&a.0).then(b.1.cmp(&a.1)).then(a.2.cmp(&b.2)));
+                    let c = cands[0].2;
+                    turn += 1;
+                    if role_str(self.view(c).unwrap().role) == "F" {
+                        self.do_timeout(c).await;
+                    }
+                    self.do_start_round(c).await;
+                    self.do_drain(3).await;
+                }
+            }
+        }
+        self.do_drain(6).await;
+        write_ok = write_ok
+            || self.events.iter().any(|e| {
+                e["e"] == "ClientResp" && e["ok"] == true && e["val"].as_str().map(|v| v.starts_with("recover")).unwrap_or(false)
+            });
+        let mut leader = 0u32;
+        let mut lcommit = 0u64;
+        let mut lagging = vec![];
+        // bounded quiet period: keep delivering + heartbeating until every live voter has applied the
+        // leader's commit index (at most 10 more rounds)
+        for _extra in 0..10 {
+            let views: Vec<(u32, VerifView)> = ids.iter().filter_map(|n| self.view(*n).map(|v| (*n, v))).collect();
+            let maxt = views.iter().map(|(_, v)| v.term).max().unwrap_or(0);
+            leader = views.iter().find(|(_, v)| role_str(v.role) == "L" && v.term == maxt).map(|(n, _)| *n).unwrap_or(0);
+            lcommit = views.iter().find(|(n, _)| *n == leader).map(|(_, v)| v.commit_index).unwrap_or(0);
+            lagging.clear();
+            for (n, v) in views.iter() {
+                if matches!(role_str(v.role), "F" | "L" | "C") {
+                    let applied = self.slots[n].h.as_ref().unwrap().sm.applied.lock().unwrap().index;
+                    if applied < lcommit {
+                        lagging.push(json!([n, applied, v.commit_index]));
+                    }
+                }
+            }
+            if leader != 0 && lagging.is_empty() {
+                break;
+            }
+            self.do_drain(2).await;
+        }
+        self.events.push(json!({"e":"Recovered","leader":leader,"writeOk":write_ok,"leaderCommit":lcommit,
+            "lagging": lagging, "rounds": rounds}));
+        self.delivered.clear();
+        true
+    }
+
     /// Node `n` asks node `to` to join the cluster as a promotable learner (what
     /// `LearnerState::join_cluster` sends through the transport).
     async fn do_join(
@@ -1068,6 +1214,11 @@ impl Cluster {
             let jh = self.slots.get_mut(&n).unwrap().round.take().unwrap();
             if let Ok((raft, _)) = jh.await {
                 self.slots.get_mut(&n).unwrap().h.as_mut().unwrap().raft = Some(raft);
+            }
+        }
+        for c in self.clients.iter_mut() {
+            if c.node == n && !c.done {
+                c.lost = true;
             }
         }
         let slot = self.slots.get_mut(&n).unwrap();
